@@ -465,3 +465,30 @@ def resolve_mux(e, asg):
         from .hdl import slice_of
         return slice_of(na[0], na[1], na[2])
     return E(e.op, na, w=e.w, val=e.val, label=e.label)
+
+
+def flag_states(ir, fsm, name):
+    """Value of a combinational one-bit flag per FSM state: {state: True | False | 'cond'} -- True/False when the flag
+    is that constant throughout the state whatever else holds, 'cond' otherwise.  One answer for the flag written inside
+    the states (`flag.eq(1)`) and for a module-level function of `fsm.ongoing(...)` (the extractor converts the latter into
+    the former where the flag has a single driver; what is left is folded here)."""
+    from .interp import _subst_ongoing
+    ds = sorted(ir.drivers(name, exact=True), key=lambda a: a.order)
+    out = {}
+    for st in fsm.states:
+        rel = [a for a in ds if a.state is None or a.state == (fsm.id, st)]
+        if any(a.domain != 'comb' for a in rel):
+            out[st] = 'cond'
+            continue
+        vals = []
+        for a in rel:
+            r = a.rhs
+            if isinstance(r, E) and any(n.op == 'ongoing' for n in r.walk()):
+                r = _subst_ongoing(r, st)
+            v = True if (r is not None and is_one(r)) else False if (r is not None and is_zero(r)) else 'cond'
+            vals.append((v, bool(a.guard)))
+        base = [k for k, (v, g) in enumerate(vals) if not g]
+        tail = vals[base[-1]:] if base else [(False, False)] + vals
+        kinds = {v for v, g in tail}
+        out[st] = kinds.pop() if len(kinds) == 1 else 'cond'
+    return out
